@@ -268,12 +268,20 @@ type Request struct {
 	Local  netip.AddrPort
 	Remote netip.AddrPort
 	Msg    *dns.Msg
+
+	// Dispose makes Serve release the written response to the cloner after
+	// the handler has returned, as the plain-DNS servers do.
+	Dispose bool
 }
 
 // Writer records what the stack writes.
 type Writer struct {
 	Local, Remote net.Addr
 	Msgs          []*dns.Msg
+
+	// origs are the messages as the stack handed them over (Msgs are copies
+	// taken at that moment, as the bytes on the wire would be).
+	origs []*dns.Msg
 }
 
 // LocalAddr implements the dnsserver.ResponseWriter interface for *Writer.
@@ -285,6 +293,7 @@ func (w *Writer) RemoteAddr() net.Addr { return w.Remote }
 // WriteMsg implements the dnsserver.ResponseWriter interface for *Writer.
 func (w *Writer) WriteMsg(_ context.Context, _, resp *dns.Msg) (err error) {
 	w.Msgs = append(w.Msgs, resp.Copy())
+	w.origs = append(w.origs, resp)
 
 	return nil
 }
@@ -333,6 +342,11 @@ func (w *World) Serve(ctx context.Context, r *Request) (out *Writer, err error) 
 	ctx = dnsserver.ContextWithRequestInfo(ctx, info)
 
 	err = h.ServeDNS(ctx, out, r.Msg)
+	if r.Dispose {
+		for _, m := range out.origs {
+			w.Cloner.Dispose(m)
+		}
+	}
 
 	return out, err
 }
